@@ -107,6 +107,10 @@ func c01exec(c *h.Ctx, cs *h.Case) {
 		c01cluster(c, cs)
 		return
 	}
+	if len(cs.Ops) > 0 && strings.HasPrefix(cs.Ops[0], "c01 send ") {
+		c01send(c, cs)
+		return
+	}
 	fixMu.Lock()
 	defer fixMu.Unlock()
 	e := &c01env{cl: fix.NewCluster(3, false), ctl: sched.New(), handedTo: map[int]string{}, handedN: map[int]int{}, treeOf: map[int]int{}}
@@ -381,6 +385,7 @@ func c01gen(c *h.Ctx, yield func(*h.Case)) {
 		c.Count("class=random")
 		yield(cs)
 	}
+	c01sendGen(c, yield)
 	for n := 0; n < c.Pick(12, 150); n++ {
 		tcp := 0
 		if n%3 == 2 {
